@@ -1,2 +1,42 @@
-(* C03 — placeholder while the model is validated; theorems follow *)
+(* C03 — PCSO comparison constraints become exact non-negative penalties on spins.
+   Statements only; proofs in Proofs/PCSOProofs.v, which composes the PCBO theorem of C02 with the
+   boolean/spin correspondence of C04 exactly along the route the source takes:
+     puso_to_pubo(H) -> helper PCBO seeded with the ancilla counter -> add_constraint -> pubo_to_puso -> self += ...
+
+   Reading guide.  For  add_constraint_R_zero(H, lam, log_trick, bounds)  on a PCSO m giving m':
+     step_ok_S m m' lam G   : at every +1/-1 assignment z,  m'(z) = m(z) + lam * G(z)
+     pen_rel_S R fresh pv G : G >= 0 at every spin assignment; if R(H(z)) some z' differing from z only on the fresh
+                              ancilla spins has G(z') = 0; otherwise G(z) >= 1 for every value of the ancillas
+     fresh_lbl a a'         : ancilla labels '__a k', a <= k < a' -- the counter handed to the helper PCBO and taken back *)
 From QV.Model Require Import Base Matrix Arith Expr Extrema Sat PCBO Convert PCSO.
+From QV.Proofs Require Import BaseProofs KeyProofs ArithProofs PenaltyArith PCBOProofs PCSOProofs.
+Open Scope Q_scope.
+
+Theorem C03_constraint : forall r m Hin lam lt b m' w t,
+  pcso_add r m Hin lam lt b = Ok (m', w, t) -> kd m = KPcso -> ~ lam == 0 ->
+  let pv := fun z => eval z Hin in
+  int_vS pv -> bvalid_S pv b -> no_anc Hin ->
+  call_result_S r m m' lam Hin w.
+Proof. exact pcso_add_spec. Qed.
+Print Assumptions C03_constraint.
+
+(* is_solution_valid(z) is true exactly when every recorded spin constraint holds at z *)
+Theorem C03_valid_iff : forall m z,
+  pcso_is_solution_valid m z = true <-> forall r P, In (r, P) (cons m) -> rel_prop r (eval z P).
+Proof. exact pcso_valid_iff. Qed.
+Print Assumptions C03_valid_iff.
+
+(* sequences on one PCSO: every call is recorded in order and owns the consecutive block of ancilla names between
+   the counter before and after it; the counter never decreases, so names never repeat *)
+Theorem C03_sequence : forall cs m m', run_calls_S m cs = Ok m' -> kd m = KPcso -> Forall call_ok_S cs -> seq_result_S m cs m'.
+Proof. exact run_calls_S_spec. Qed.
+Print Assumptions C03_sequence.
+Theorem C03_ancilla_blocks : forall m cs m', seq_result_S m cs m' -> (anc m <= anc m')%nat.
+Proof. exact seq_result_S_anc. Qed.
+Print Assumptions C03_ancilla_blocks.
+
+(* non-vacuity: z0 + z1 + z2 - 1 <= 0 on spins with binary slack; ancillas are created, constraint recorded *)
+Example C03_example :
+  exists m' w t, pcso_add RLe (empty_model KPcso) [([0]%nat, 1); ([1]%nat, 1); ([2]%nat, 1); ([], -(1))] 2 true (None, None) = Ok (m', w, t)
+                 /\ (0 < anc m')%nat /\ w = WNone /\ length (cons m') = 1%nat.
+Proof. eexists. eexists. eexists. vm_compute. split; [reflexivity|]. split; [apply Nat.lt_0_succ|]. split; reflexivity. Qed.
